@@ -62,10 +62,27 @@ def gen_cfg(rng, simple=False):
             "store_metadata_namespace": rng.choice([DEFAULT_NS, DEFAULT_NS, "urn:ns:sysmeta", "fmt-default"])}
 
 
+RELSTORE_P = float(__import__("os").environ.get("VERIF_RELSTORE_P", 0.1))  # share of SEQ histories whose store_path is relative to the working directory
+
+
+def maybe_skin(rng, knobs):
+    """Identifier 'skins' (applied by World to every pid of the program, injectively): long identifiers
+    (reference files of many kB: beyond one read buffer) and identifiers made of characters that mean
+    something to printf / str.format / logging."""
+    if rng.random() < 0.15:
+        knobs["short_writes"] = True
+    r = rng.random()
+    if r < 0.05:
+        knobs["pid_skin"] = ["long", rng.choice([2800, 4200, 8200, 9000])]
+    elif r < 0.12:
+        knobs["pid_skin"] = ["fmt", rng.randrange(4)]
+    return knobs
+
+
 def gen_knobs(rng, mp=None):
     b = rng.choice([None, 1, 2, 3, 5, 7, 16, 64, 100, 512, 4096, 8192])
-    return {"blksize": b, "write_through": rng.random() < 0.3,
-            "shuffle_listdir": True, "mp": (rng.random() < 0.25) if mp is None else mp}
+    return maybe_skin(rng, {"blksize": b, "write_through": rng.random() < 0.3,
+                            "shuffle_listdir": True, "mp": (rng.random() < 0.25) if mp is None else mp})
 
 
 def gen_contents(rng, blksize, n, big=False):
@@ -200,6 +217,8 @@ def gen_seq_program(seed, prof, tier="quick", mp=None, length=None):
         if rng.random() < 0.15:
             cfg["store_width"] = rng.choice([str(cfg["store_width"]), "0%d" % cfg["store_width"], "%d " % cfg["store_width"]])
     knobs = gen_knobs(rng, mp=mp)
+    if rng.random() < RELSTORE_P and prof != "C19":  # (C19 runs two worlds side by side: one working directory)
+        knobs["relstore"] = True
     if prof == "C18":
         from . import adversarial
         pids = adversarial.gen_ids(rng, rng.randint(2, 3))
@@ -307,6 +326,14 @@ def gen_seq_program(seed, prof, tier="quick", mp=None, length=None):
         elif k == "reopen":
             from . import cfgspace
             ops.append(dict({"op": "reopen"}, **cfgspace.gen_reopen(rng, cfg)))
+    if prof != "C14" and rng.random() < 0.12:
+        # two instances opened on the same store directory (two clients of one store): calls are routed to
+        # either; everything the properties promise is about the store, not about one Python object
+        knobs["two_instances"] = True
+        for op in ops:
+            if op["op"] in ("store", "tag", "delete", "div", "smeta", "dmeta", "retrieve", "rmeta", "hexdigest") \
+                    and rng.random() < 0.4:
+                op["inst"] = 1
     return {"seed": seed, "engine": "seq", "prof": prof, "cfg": cfg, "knobs": knobs, "pids": pids,
             "formats": formats, "contents": contents, "mcontents": mcontents, "ops": ops}
 
@@ -315,7 +342,7 @@ def gen_seq_program(seed, prof, tier="quick", mp=None, length=None):
 # CONC scenarios
 # ------------------------------------------------------------------------------------------
 
-POLICIES = ["random", "random", "pct", "pct", "bounded", "probe"]
+POLICIES = ["random", "random", "pct", "pct", "bounded", "probe", "race", "race"]
 
 
 def gen_conc_knobs(rng, mp=None, tier="quick"):
@@ -327,7 +354,7 @@ def gen_conc_knobs(rng, mp=None, tier="quick"):
          "bound": rng.choice([1, 2, 3])}
     if k["mp"]:
         k["wake"] = "random"
-    return k
+    return maybe_skin(rng, k)
 
 
 def _obj_setup(rng, npids, ncont):
@@ -594,6 +621,7 @@ def gen_single_random(seed, engine, tier="quick"):
     if "pid" in call and call["pid"] is not None and rng.random() < 0.5:
         call["pid"] = rng.randrange(3)
     h.update({"engine": engine, "setup": setup, "call": call, "state": "random", "callname": name})
+    maybe_skin(rng, h["knobs"])
     return h
 
 
